@@ -132,7 +132,11 @@ class SpecOracle:
 
     def check(self, kinds, observed, canonical):
         """Compare a native result line with the specification.  Returns list of complaints."""
-        exp = self.expect(kinds)
+        return check_expect(self.expect(kinds), kinds, observed, canonical)
+
+
+def check_expect(exp, kinds, observed, canonical):
+    if True:
         bad = []
         if observed == "PANIC":
             return ["parser panicked"]
